@@ -209,6 +209,7 @@ func checkC02(p *Prog, r *Report) {
 	r.rule("C02.A7", "no blocking operation (channel operation outside a select with default, Sleep, WaitN, WaitGroup.Wait, socket I/O) is reachable while UDPSession.mu is held; exemptions: the user callback of Control and the socket-option setters", 2)
 	r.rule("C02.A7b", "every function that acquires a mutex releases it on every return path or defers the release", 1)
 	r.rule("C02.A10", "data that became readable is announced to a blocked reader, also when it was recovered by FEC: after the last change of the core in kcpInput the availability is tested and the token posted (= C13.W5b)", 2)
+	r.rule("C02.A13", "no deadlock by lock order (= C13.W12): a session whose mutex is part of a lock cycle stops delivering for good", 1)
 	r.rule("C02.A12", "no empty message enters the send queue (= C01.S16): behind a zero-length message the peer's reader never makes progress", 1)
 	r.rule("C02.A11", "room made by the reader is used: after Recv has taken segments from the delivery queue every path to its return runs the loop that promotes parked segments from rcv_buf", 1)
 	r.rule("C02.A9", "the reorder heap releases the segment rcv_nxt when it is present: its comparator orders sequence numbers through the signed difference, also across the 32-bit wrap (= C12.K3)", 1)
@@ -216,6 +217,7 @@ func checkC02(p *Prog, r *Report) {
 	delegate(p, r, "C13", checkC13, "C13.W5b", "C02.A10")
 	checkPromotionInRecv(p, r, "C02.A11")
 	checkEmptySendRefused(p, r, "C02.A12")
+	checkLockOrder(p, r, "C02.A13")
 	{
 		sub := newReport("C12", r.Tier)
 		sub.curCfg = r.curCfg
